@@ -19,6 +19,7 @@ import (
 	"sort"
 	"strings"
 	"sync"
+	"sync/atomic"
 	"time"
 )
 
@@ -210,7 +211,16 @@ func (s *sched) findHelperBlocking(tid int, hctx context.Context) *schedHelper {
 
 // schedTimeout bounds how long the scheduler waits for a goroutine that must arrive at a hook
 // point; it only ever matters when something hangs (a lost wake-up), so it is generous.
+// schedTimeouts counts the arrival deadlines missed so far in this process: once a few cases
+// have shown a goroutine that never arrives (a lost wake-up is established and will be reported
+// with those cases as replay), the remaining cases use a short deadline so that a tree in which
+// most schedules hang does not make the run take hours.
+var schedTimeouts atomic.Int64
+
 func schedTimeout() time.Duration {
+	if schedTimeouts.Load() >= 3 {
+		return 1500 * time.Millisecond
+	}
 	if v, err := strconv.Atoi(os.Getenv("VERIF_SCHED_TIMEOUT_MS")); err == nil && v > 0 {
 		return time.Duration(v) * time.Millisecond
 	}
@@ -436,6 +446,7 @@ func (s *sched) process(segTid int, needEnd bool) (end string, woke []int) {
 				miss = append(miss, fmt.Sprintf("segment-end:%d", segTid))
 			}
 			sort.Strings(miss)
+			schedTimeouts.Add(1)
 			s.failed = "TIMEOUT(" + strings.Join(miss, ",") + ")"
 			return "timeout", woke
 		}
@@ -539,6 +550,7 @@ func (s *sched) processHelper(tid int, h *schedHelper) (string, []int) {
 				s.note(fmt.Sprintf("unexpected-event-during-fire:%d:%d", ev.kind, ev.tid))
 			}
 		case <-timer.C:
+			schedTimeouts.Add(1)
 			s.failed = "TIMEOUT(helper-fire)"
 			return "timeout", woke
 		}
